@@ -17,6 +17,7 @@ def scenarios(tier, seed):
     rng = random.Random(seed)
     n = 1500 if tier == "thorough" else 330
     scs = [directed(rng, "deaths") if k % 3 else base_scenario(rng) for k in range(n)]
+    scs += [directed(rng, "scale") for _ in range(6 if tier == "thorough" else 2)]      # hundreds of particles, 24-40 steps, 8-20 files
     rl = random.Random(seed + 11)
     for sc in scs:       # longitude / latitude as two more instance variables in a third of the runs (values only where the particle lives)
         if rl.random() < 0.34:
@@ -49,7 +50,7 @@ def run(tier, seed):
             owners.append(dict(f, restart_k=k))      # (replay re-runs the family and validates this restart)
     rep.add_tv("e2e-records-after-restart", "LadimTrace", owners, rs, tlc.validate_traces("LadimTrace", rs, batch_events=1500), family=FAMILY)
     rep.nontrivial = len({repr((s["rows"], s["kill"], s["ops"], s["numrec"], s["layout"])) for s in scs if s["kill"]})
-    rep.rule = ("random end-to-end scenarios (two thirds with 2-5 scripted deaths and freezes, particle variables, lon/lat output, sparse/dense, split files, "
+    rep.rule = ("random end-to-end scenarios (two thirds with 2-5 scripted deaths and freezes, particle variables, lon/lat output, sparse/dense, split files, two runs with 270-780 particles over 24-40 steps and 8-20 files, "
                 "several reference times); non-trivial = distinct (release table, kills, period, split, layout) with at least one death")
     rep.assumptions = ["files are read back with netCDF4 row by row; instance variables are written as f8/i4 so that 'the values the model state had' is exact equality"]
     return rep
